@@ -67,8 +67,10 @@ theorem slotBytes_special (f : File) (s : Nat) (h : isSpecial (f.dd s).tag = tru
   unfold File.slotBytes; simp [h, File.keyOf]
 
 /-- the file after a plain `Hwrite` of `bs` at `p` into the element in slot `s` (extent `(o, l)`), `grow` = the DD's
-    length is pushed to `p + |bs|` first (appendable element at the end of the file) -/
-def plainWriteF (f : File) (s o p : Nat) (bs : Bytes) (grow : Bool) : File :=
+    length is pushed to `p + |bs|` first (appendable element at the end of the file), after the gap `[l, p)` has been
+    filled with zeros -/
+def plainWriteF (f : File) (s o l p : Nat) (bs : Bytes) (grow : Bool) : File :=
+  let f := if grow = true ∧ p > l then f.pwrite (o + l) (zeros (p - l)) else f
   let f := if grow then f.ddSetExt s (o, p + bs.length) else f
   let f := f.pwrite (o + p) bs
   { f with endOff := max f.endOff (o + p + bs.length) }
@@ -88,7 +90,7 @@ theorem plainWrite_core (f f1 : File) (hw : WFE f) (s o l p : Nat) (bs : Bytes)
     (hext : (f.dd s).ext = some (o, l))
     (hcase : p + bs.length ≤ l ∨ (p + bs.length > l ∧ o + l = f.endOff))
     (hdd1 : ∀ j, f1.dd j = if j = s then { f.dd s with ext := some (o, max l (p + bs.length)) } else f.dd j)
-    (hend1 : f1.endOff = max f.endOff (o + max l (p + bs.length)) ∧ f1.disk = f.disk ∧ f1.links = f.links ∧ f1.ndds = f.ndds)
+    (hend1 : f1.endOff = max f.endOff (o + max l (p + bs.length)) ∧ (∀ x, rd f1.disk x = rd f.disk x) ∧ f1.links = f.links ∧ f1.ndds = f.ndds)
     (hpres1 : f1.present = f.present) :
     PlainWritten f s o l p bs (f1.pwrite (o + p) bs) := by
   have hle := hw.ext_le s o l hl hext
@@ -101,7 +103,7 @@ theorem plainWrite_core (f f1 : File) (hw : WFE f) (s o l p : Nat) (bs : Bytes)
     · subst e; simp
     · simp [e]
   have hrd : ∀ x, rd (f1.pwrite (o + p) bs).disk x = if o + p ≤ x ∧ x < o + p + bs.length then bs.getD (x - (o + p)) 0 else rd f.disk x := by
-    intro x; rw [pwrite_rd, hend1.2.1]
+    intro x; rw [pwrite_rd, hend1.2.1 x]
   -- WFF of the result
   have hw' : WFF (f1.pwrite (o + p) bs) := by
     refine ⟨by show f1.ndds ≥ 1; rw [hend1.2.2.2]; exact hw.ndds_pos, ?_, ?_, ?_, ?_⟩
@@ -189,7 +191,7 @@ theorem plainWrite_spec (f : File) (hw : WFE f) (s o l p : Nat) (bs : Bytes) (gr
     (hl : f.live s) (hsp : isSpecial (f.dd s).tag = false) (hut : baseTag (f.dd s).tag ≠ DFTAG_LINKED)
     (hext : (f.dd s).ext = some (o, l))
     (hcase : (grow = false ∧ p + bs.length ≤ l) ∨ (grow = true ∧ p + bs.length > l ∧ o + l = f.endOff)) :
-    PlainWritten f s o l p bs (plainWriteF f s o p bs grow) := by
+    PlainWritten f s o l p bs (plainWriteF f s o l p bs grow) := by
   have hs_lt := live_lt f s hl
   have hle := hw.ext_le s o l hl hext
   rcases hcase with ⟨hg, hfit⟩ | ⟨hg, hgt, heof⟩
@@ -199,20 +201,50 @@ theorem plainWrite_spec (f : File) (hw : WFE f) (s o l p : Nat) (bs : Bytes) (gr
       (by intro j; by_cases e : j = s
           · subst e; simp only [if_true]; rw [hm, ← hext]
           · simp [e])
-      ⟨by rw [hm]; omega, rfl, rfl, rfl⟩ rfl
+      ⟨by rw [hm]; omega, fun _ => rfl, rfl, rfl⟩ rfl
     unfold plainWriteF
-    simp only [Bool.false_eq_true, if_false]
+    simp only [Bool.false_eq_true, false_and, if_false]
     rw [endOff_max_noop _ _ (by show o + p + bs.length ≤ f.endOff; omega)]
     exact this
   · subst hg
     have hm : max l (p + bs.length) = p + bs.length := by omega
-    have := plainWrite_core f (f.ddSetExt s (o, p + bs.length)) hw s o l p bs hl hsp hut hext (Or.inr ⟨hgt, heof⟩)
-      (by intro j; rw [ddSetExt_dd f s j _ hs_lt, hm])
-      ⟨by rw [ddSetExt_endOff f s _ hs_lt, hm], ddSetExt_disk _ _ _, ddSetExt_links _ _ _, ddSetExt_ndds _ _ _⟩
-      (by unfold File.ddSetExt File.updateDD; simp only [File.dd]; split <;> split <;> rfl)
+    -- the gap fill: zeros written where (by `tail0`) zeros are; `growth_gap_zero` says they are zeros whatever was there
+    have hg0 : ∀ g : File, g = (if p > l then f.pwrite (o + l) (zeros (p - l)) else f) →
+        (∀ x, rd g.disk x = rd f.disk x) ∧ (∀ j, g.dd j = f.dd j) ∧ g.endOff = f.endOff ∧ g.links = f.links ∧
+        g.ndds = f.ndds ∧ g.present = f.present ∧ g.mem.length = f.mem.length := by
+      intro g hg
+      by_cases c : p > l
+      · rw [if_pos c] at hg
+        subst hg
+        refine ⟨?_, fun _ => rfl, rfl, rfl, rfl, rfl, rfl⟩
+        intro x
+        exact pwrite_zeros_rd f (o + l) (p - l) (fun y hy _ => hw.tail0 y (by omega)) x
+      · rw [if_neg c] at hg
+        subst hg
+        exact ⟨fun _ => rfl, fun _ => rfl, rfl, rfl, rfl, rfl, rfl⟩
     unfold plainWriteF
-    simp only [if_true]
-    rw [endOff_max_noop _ _ (by show o + p + bs.length ≤ (f.ddSetExt s (o, p + bs.length)).endOff; rw [ddSetExt_endOff f s _ hs_lt]; simp; omega)]
+    simp only [if_true, true_and]
+    generalize hgd : (if p > l then f.pwrite (o + l) (zeros (p - l)) else f) = g
+    obtain ⟨g1, g2, g3, g4, g5, g6, g7⟩ := hg0 g hgd.symm
+    have hs_lt' : s < g.mem.length := by rw [g7]; exact hs_lt
+    have := plainWrite_core f (g.ddSetExt s (o, p + bs.length)) hw s o l p bs hl hsp hut hext (Or.inr ⟨hgt, heof⟩)
+      (by intro j; rw [ddSetExt_dd g s j _ hs_lt', hm, g2 s, g2 j])
+      ⟨by rw [ddSetExt_endOff g s _ hs_lt', hm, g3], fun x => by rw [ddSetExt_disk]; exact g1 x,
+       by rw [ddSetExt_links]; exact g4, by rw [ddSetExt_ndds]; exact g5⟩
+      (by
+        have : (g.ddSetExt s (o, p + bs.length)).present = g.present := by
+          unfold File.ddSetExt File.updateDD; simp only [File.dd]; split <;> split <;> rfl
+        rw [this]; exact g6)
+    rw [endOff_max_noop _ _ (by show o + p + bs.length ≤ (g.ddSetExt s (o, p + bs.length)).endOff; rw [ddSetExt_endOff g s _ hs_lt', g3]; simp; omega)]
     exact this
+
+/-- 998a325, independent of what the file held there: after the gap fill every byte between the old end of the element
+    and the write position is zero -/
+theorem growth_gap_zero (f : File) (o l p : Nat) (x : Nat) (h1 : o + l ≤ x) (h2 : x < o + p) :
+    rd (f.pwrite (o + l) (zeros (p - l))).disk x = 0 := by
+  rw [pwrite_rd, zeros_length, if_pos ⟨h1, by omega⟩]
+  unfold zeros
+  simp only [List.getD_eq_getElem?_getD, List.getElem?_replicate]
+  split <;> rfl
 
 end H4.Elem
